@@ -27,6 +27,16 @@ pub proof fn lemma_wrap_mul_reinterpret(n: u64, daf: i64)
     }
 }
 
+#[verifier::reject_recursive_types(T)]
+/// `x as i64` on a u64 is the two's complement reinterpretation
+pub proof fn lemma_u64_as_i64(x: u64)
+    ensures (x as i64) as int == wrap_i64(x as int) as int
+{
+    assert((x as i64) as int == (if x >= 0x8000_0000_0000_0000u64 { x as int - 0x1_0000_0000_0000_0000int } else { x as int })) by (bit_vector);
+    assert(x as int % 0x1_0000_0000_0000_0000int == x as int);
+}
+
+#[verifier::reject_recursive_types(T)]
 pub ghost struct ARow<T: ReaderOffset> {
     pub start: u64,
     pub end: u64,
@@ -35,6 +45,7 @@ pub ghost struct ARow<T: ReaderOffset> {
     pub args_size: u64,
 }
 
+#[verifier::reject_recursive_types(T)]
 pub ghost struct ACtx<T: ReaderOffset> {
     /// rows saved by remember_state, the row under construction last
     pub stack: Seq<ARow<T>>,
@@ -63,6 +74,7 @@ pub ghost enum AErr {
     PopWithEmptyStack,
 }
 
+#[verifier::reject_recursive_types(T)]
 pub ghost struct AStep<T: ReaderOffset> {
     /// Ok(true): the current row is complete; Ok(false): row still under construction
     pub res: core::result::Result<bool, AErr>,
